@@ -404,7 +404,7 @@ pub fn c03(tier: Tier) -> i32 {
                 long.push_str(&format!("contract B{k} {{\n  uint256 private hidden{k};\n  function g(uint256 a, uint256 b, address t) public payable returns (bool) {{\n    IERC20(t).transfer(t, a - b);\n    return a >= b;\n  }}\n  constructor() {{}}\n}}\n"));
             }
             let crlf = long.replace('\n', "\r\n");
-            let wide = format!("// \u{e9}\u{4e2d}\u{6587}\u{1f600} \u{43f}\u{440}\n/* \u{e9}\n\u{4e2d} */\n{}", long).replace("contract B7 ", "/* \u{1f600}\u{1f600} */ contract B7 ");
+            let wide = format!("// \u{e9}\u{4e2d}\u{6587}\u{1f600} \u{43f}\u{440}\n/* \u{e9}\n\u{4e2d} */\nstring constant BANNER = unicode\"{}\";\n{}", "\u{4e2d}\u{6587}\u{1f600}".repeat(60), long).replace("contract B7 ", "/* \u{1f600}\u{1f600} */ contract B7 ");
             let cr = long.replace('\n', "\r");
             let noeol = long.trim_end().to_string();
             let mixed = long.replace("{\n", "{\r\n");
@@ -1236,7 +1236,7 @@ pub fn c13_directory_level(tier: Tier) -> DirLevel {
             let many = many.replace("    return i;\n", &format!("{}    return i;\n", "    i = (\n      i / 3 * 5\n    ) * 7;\n".repeat(6)));
             let types = "pragma solidity 0.8.19;\ntype Price is uint128;\ntype Qty is uint64;\n";
             let book = "pragma solidity 0.8.19;\nimport \"./Types.sol\";\nstruct Order { Price bid; uint256 amount; Price ask; }\ncontract Book { Qty a; uint256 b; Qty c; }\n";
-            let tree2 = vec![file("Many.sol", many.as_bytes()), file("D.sol", crate::c15::BODY_B.as_bytes()), file("Types.sol", types.as_bytes()), file("Book.sol", book.as_bytes())];
+            let tree2 = vec![file("Many.sol", many.as_bytes()), file("D.sol", crate::c15::BODY_B.as_bytes()), file("Book.sol", book.as_bytes()), file("Types.sol", types.as_bytes())];
             materialise(&root2, &tree2);
             let r2 = root2.to_str().unwrap().to_string();
             let orders2 = all_orders(&root2, &tree2);
